@@ -294,10 +294,12 @@ func (pe *PathEnum) stmt(s ast.Stmt, st *pstate, outs *[]*PathOut) []*pstate {
 		if call, ok := unparen(x.X).(*ast.CallExpr); ok {
 			t := pe.expr(call, st)
 			if builtinName(pe.info, call) == "panic" {
-				*outs = append(*outs, &PathOut{Conds: st.conds, Effects: st.effects, Kind: "panic", Vals: t.Args, Node: x})
+				*outs = append(*outs, &PathOut{Conds: st.conds, Effects: st.effects, Kind: "panic", Vals: t.Args, Node: x, Env: st.env.vars})
 				return nil
 			}
-			st.effects = append(st.effects, Effect{Kind: "call", Term: t, Node: x})
+			if builtinName(pe.info, call) != "" {
+				st.effects = append(st.effects, Effect{Kind: "call", Term: t, Node: x})
+			}
 			return []*pstate{st}
 		}
 		if u, ok := unparen(x.X).(*ast.UnaryExpr); ok && u.Op == token.ARROW {
@@ -504,14 +506,14 @@ func (pe *PathEnum) split(cond ast.Expr, pol bool, st *pstate) []*pstate {
 			return pe.split(x.X, !pol, st)
 		}
 	}
-	t := pe.expr(cond, st)
+	n := st.fork()
+	t := pe.expr(cond, n)
 	if t.Op == "const" && t.Val.Kind() == constant.Bool {
 		if constant.BoolVal(t.Val) == pol {
-			return []*pstate{st.fork()}
+			return []*pstate{n}
 		}
 		return nil
 	}
-	n := st.fork()
 	n.conds = append(n.conds, Cond{t, pol})
 	return []*pstate{n}
 }
@@ -652,7 +654,11 @@ func (pe *PathEnum) expr(e ast.Expr, st *pstate) *Term {
 		} else {
 			name = pe.expr(x.Fun, st).String()
 		}
-		return &Term{Op: "call", Name: name, Args: args, Node: e}
+		ct := &Term{Op: "call", Name: name, Args: args, Node: e}
+		if builtinName(pe.info, x) == "" {
+			st.effects = append(st.effects, Effect{Kind: "call", Term: ct, Node: x})
+		}
+		return ct
 	case *ast.CompositeLit:
 		t := &Term{Op: "composite", Name: "", Fields: map[string]*Term{}, Node: e}
 		if tv, ok := pe.info.Types[e]; ok {
